@@ -338,31 +338,166 @@ Proof.
     apply in_map. exact I.
 Qed.
 
-(* ---- Open / Add / Run sequences with the mode off ---- *)
+(* ---- the uploader has none of the counter package's effects ---- *)
+Definition not_counter (e : effect) : bool :=
+  match e with ECounterFile | ECounterAdd => false | _ => true end.
+
+Lemma off_allowed_not_counter l : forallb off_allowed l = true -> forallb not_counter l = true.
+Proof.
+  rewrite !forallb_forall. intros H e I. specialize (H e I). destruct e; try reflexivity; discriminate.
+Qed.
+
+Lemma create_report_not_counter mode asof (cfg : runcfg') l g :
+  forallb not_counter (snd (fst (create_report' mode asof cfg l g))) = true.
+Proof.
+  unfold create_report. destruct (negb _); [reflexivity|].
+  destruct (local_has l _); [cbn [fst snd]; rewrite forallb_app, forallb_map_const by reflexivity; reflexivity|].
+  destruct (local_has l _); [cbn [fst snd]; rewrite forallb_app, forallb_map_const by reflexivity; reflexivity|].
+  cbn [fst snd]. rewrite !forallb_app, forallb_map_const by reflexivity.
+  destruct (upload_ok' _ _ _ _ _ _ _); reflexivity.
+Qed.
+
+Lemma reports_loop_not_counter mode asof (cfg : runcfg') uploaded gs : forall l ready,
+  forallb not_counter (snd (fst (reports_loop' mode asof cfg uploaded gs l ready))) = true.
+Proof.
+  induction gs as [|g gs IH]; intros l ready; cbn [reports_loop]; [reflexivity|].
+  destruct (not_needed _ _ _).
+  - specialize (IH (remove_all l (map lf_name (g_files g))) ready).
+    destruct (reports_loop' _ _ _ _ gs _ ready) as [[r1 e1] l1]. cbn [fst snd] in *.
+    rewrite forallb_app, forallb_map_const by reflexivity. exact IH.
+  - pose proof (create_report_not_counter mode asof cfg l g) as C.
+    destruct (create_report' mode asof cfg l g) as [[nm e1] l1]. cbn [fst snd] in C.
+    specialize (IH l1 (match nm with Some n => ready ++ [n] | None => ready end)%list).
+    destruct (reports_loop' _ _ _ _ gs l1 _) as [[r2 e2] l2]. cbn [fst snd] in *.
+    rewrite forallb_app, C. exact IH.
+Qed.
+
+Lemma upload_one_not_counter (cfg : runcfg') today nm d :
+  forallb not_counter (fst (upload_one R cfg today nm d)) = true.
+Proof.
+  unfold upload_one. destruct (future_report today nm); [reflexivity|].
+  destruct (d_local d) as [l|]; [|reflexivity].
+  destruct (negb (local_has l nm)); [reflexivity|].
+  destruct (Nat.ltb _ _); [reflexivity|].
+  destruct (d_upload d) as [u|]; [|reflexivity].
+  destruct (names_has u _); [reflexivity|].
+  destruct (names_has u _); [reflexivity|].
+  destruct (Z.eqb _ 200); [reflexivity|]. destruct (_ && _); reflexivity.
+Qed.
+
+Lemma upload_all_not_counter (cfg : runcfg') today ready : forall d,
+  forallb not_counter (fst (upload_all R cfg today ready d)) = true.
+Proof.
+  induction ready as [|r rest IH]; intros d; cbn [upload_all]; [reflexivity|].
+  pose proof (upload_one_not_counter cfg today r d) as P.
+  destruct (upload_one R cfg today r d) as [e d1]. cbn [fst] in P. specialize (IH d1).
+  destruct (upload_all R cfg today rest d1) as [e2 d2]. cbn [fst] in *. rewrite forallb_app, P, IH. reflexivity.
+Qed.
+
+Lemma run_no_counter_effects mode asof (cfg : runcfg') d :
+  forallb not_counter (fst (run_ma' mode asof cfg d)) = true.
+Proof.
+  unfold run_ma.
+  pose proof (find_work_no_post mode asof d (rc_start cfg)) as N1. apply off_allowed_not_counter in N1.
+  destruct (find_work mode asof d (rc_start cfg)) as [[w e1] d1]. cbn [fst snd] in N1.
+  unfold reports. destruct (beq mode m_off).
+  - cbn [upload_all fst]. rewrite !forallb_app, N1. reflexivity.
+  - destruct (d_local d1) as [l|].
+    + pose proof (reports_loop_not_counter mode asof cfg (w_uploaded w) (groups_of (rc_start cfg) (w_count w)) l (w_ready w)) as N2.
+      destruct (reports_loop' _ _ _ _ _ _ _) as [[r e2] l2]. cbn [fst snd] in N2.
+      pose proof (upload_all_not_counter cfg (today_of (rc_start cfg)) r {| d_local := Some l2; d_upload := d_upload d1 |}) as N3.
+      destruct (upload_all R cfg _ r _) as [e3 d3]. cbn [fst] in *.
+      rewrite !forallb_app, N1, N3. cbn [forallb not_counter]. rewrite N2. reflexivity.
+    + pose proof (upload_all_not_counter cfg (today_of (rc_start cfg)) (w_ready w) d1) as N3.
+      destruct (upload_all R cfg _ (w_ready w) d1) as [e3 d3]. cbn [fst] in *.
+      rewrite !forallb_app, N1, N3. reflexivity.
+Qed.
+
+(* ---- Open / Add / Run / rotation sequences with the mode off ---- *)
+(* every mode-file change inside the sequence writes a file that reads off *)
+Definition keeps_off (o : op R) : Prop :=
+  match o with OpSetMode _ f => mode_of f = m_off | _ => True end.
+
+Lemma off_step (o : op R) fs p : mode_of (fs_mode fs) = m_off -> p <> PMapped -> keeps_off o ->
+  let '(e1, (fs1, p1)) := step R rlt rzero o (fs, p) in
+  forallb off_allowed e1 = true /\ mode_of (fs_mode fs1) = m_off /\
+  (fs_mode fs1 = fs_mode fs \/ exists f, o = OpSetMode R f) /\ fs_local fs1 = fs_local fs /\
+  (fs_upload fs1 = fs_upload fs \/ (fs_upload fs = None /\ fs_upload fs1 = Some [])) /\ p1 <> PMapped.
+Proof.
+  intros M P K. destruct o as [| |cfg|expired|f]; cbn [step].
+  - destruct p; [rewrite M; change (beq m_off m_off) with true| |contradiction];
+      repeat split; auto; discriminate.
+  - destruct p; [| |contradiction]; repeat split; auto.
+  - unfold run. rewrite M. pose proof (off_run (asof_of (fs_mode fs)) cfg (dirs_of fs)) as O.
+    destruct (run_ma' m_off _ cfg (dirs_of fs)) as [e d']. destruct O as (O1 & O2 & O3).
+    cbn [fs_mode fs_local fs_upload dirs_of d_local d_upload] in *.
+    repeat split; auto. destruct O3 as [O3|(O3 & O4 & _)]; auto.
+  - unfold rotate1_step. destruct p; [rewrite M; change (beq m_off m_off) with true| |contradiction];
+      repeat split; auto; discriminate.
+  - cbn [keeps_off] in K. cbn [fs_mode fs_local fs_upload]. repeat split; auto. right. eexists. reflexivity.
+Qed.
+
 Theorem off_is_inert_exec (ops : list (op R)) : forall fs p, mode_of (fs_mode fs) = m_off -> p <> PMapped ->
+  Forall keeps_off ops ->
   let '(e, (fs', p')) := exec R rlt rzero ops (fs, p) in
-  forallb off_allowed e = true /\ fs_mode fs' = fs_mode fs /\ fs_local fs' = fs_local fs /\
+  forallb off_allowed e = true /\ mode_of (fs_mode fs') = m_off /\ fs_local fs' = fs_local fs /\
   (fs_upload fs' = fs_upload fs \/ (fs_upload fs = None /\ fs_upload fs' = Some [])) /\ p' <> PMapped.
 Proof.
-  induction ops as [|o ops IH]; intros fs p M P; cbn [exec].
+  induction ops as [|o ops IH]; intros fs p M P K; cbn [exec].
   - repeat split; auto.
-  - assert (S : let '(e1, (fs1, p1)) := step R rlt rzero o (fs, p) in
-                forallb off_allowed e1 = true /\ fs_mode fs1 = fs_mode fs /\ fs_local fs1 = fs_local fs /\
-                (fs_upload fs1 = fs_upload fs \/ (fs_upload fs = None /\ fs_upload fs1 = Some [])) /\ p1 <> PMapped).
-    { destruct o as [| |cfg]; cbn [step].
-      - destruct p; [rewrite M; change (beq m_off m_off) with true| |contradiction];
-          repeat split; auto; discriminate.
-      - destruct p; [| |contradiction]; repeat split; auto.
-      - unfold run. rewrite M. pose proof (off_run (asof_of (fs_mode fs)) cfg (dirs_of fs)) as O.
-        destruct (run_ma' m_off _ cfg (dirs_of fs)) as [e d']. destruct O as (O1 & O2 & O3).
-        cbn [fs_mode fs_local fs_upload dirs_of d_local d_upload] in *.
-        repeat split; auto. destruct O3 as [O3|(O3 & O4 & _)]; auto. }
-    destruct (step R rlt rzero o (fs, p)) as [e1 [fs1 p1]]. destruct S as (S1 & S2 & S3 & S4 & S5).
-    assert (M1 : mode_of (fs_mode fs1) = m_off) by (rewrite S2; exact M).
-    specialize (IH fs1 p1 M1 S5).
+  - inversion K as [|? ? K1 K2]; subst.
+    pose proof (off_step o fs p M P K1) as S.
+    destruct (step R rlt rzero o (fs, p)) as [e1 [fs1 p1]]. destruct S as (S1 & S2 & _ & S3 & S4 & S5).
+    specialize (IH fs1 p1 S2 S5 K2).
     destruct (exec R rlt rzero ops (fs1, p1)) as [e2 [fs2 p2]]. destruct IH as (I1 & I2 & I3 & I4 & I5).
     rewrite forallb_app, S1, I1. repeat split; try congruence.
     destruct S4 as [S4|[S4 S4']], I4 as [I4|[I4 I4']]; [left; congruence | right; split; congruence | right; split; congruence | congruence].
+Qed.
+
+(* rotation is gated by the mode read AT that rotation: whatever the process
+   state (in particular with a file mapped since the mode was on or local), a
+   rotate1 under mode off creates nothing and leaves the process without a
+   mapping; by off_is_inert_exec nothing is recorded from then on *)
+Theorem rotation_under_off expired fs p : mode_of (fs_mode fs) = m_off ->
+  let '(e, (fs', p')) := step R rlt rzero (OpRotate R expired) (fs, p) in
+  forallb off_allowed e = true /\ fs' = fs /\ p' <> PMapped.
+Proof.
+  intros M. cbn [step]. unfold rotate1_step. destruct p; rewrite ?M; change (beq m_off m_off) with true;
+    repeat split; auto; discriminate.
+Qed.
+
+Theorem off_from_rotation_on expired (ops : list (op R)) fs p : mode_of (fs_mode fs) = m_off ->
+  Forall keeps_off ops ->
+  let '(e, (fs', p')) := exec R rlt rzero (OpRotate R expired :: ops) (fs, p) in
+  forallb off_allowed e = true /\ mode_of (fs_mode fs') = m_off /\ fs_local fs' = fs_local fs /\
+  (fs_upload fs' = fs_upload fs \/ (fs_upload fs = None /\ fs_upload fs' = Some [])) /\ p' <> PMapped.
+Proof.
+  intros M K. cbn [exec]. pose proof (rotation_under_off expired fs p M) as S.
+  destruct (step R rlt rzero (OpRotate R expired) (fs, p)) as [e1 [fs1 p1]]. destruct S as (S1 & -> & S3).
+  pose proof (off_is_inert_exec ops fs p1 M S3 K) as I.
+  destruct (exec R rlt rzero ops (fs, p1)) as [e2 [fs2 p2]]. destruct I as (I1 & I2).
+  rewrite forallb_app, S1, I1. split; [reflexivity | exact I2].
+Qed.
+
+(* the counter package changes a count file only through a mapping, and it
+   gets or keeps a mapping only at a step that read a mode other than off *)
+Theorem mapping_needs_mode_not_off (o : op R) fs p :
+  let '(e, (fs', p')) := step R rlt rzero o (fs, p) in
+  (In ECounterFile e -> mode_of (fs_mode fs) <> m_off) /\
+  (In ECounterAdd e -> p = PMapped).
+Proof.
+  destruct o as [| |cfg|expired|f]; cbn [step].
+  - destruct p; [destruct (beq (mode_of (fs_mode fs)) m_off) eqn:E| |]; split; cbn; intros H;
+      repeat (destruct H as [H|H]; try discriminate H); try contradiction.
+    apply beq_neq. exact E.
+  - destruct p; split; cbn; intros H; repeat (destruct H as [H|H]; try discriminate H); try contradiction; reflexivity.
+  - unfold run. pose proof (run_no_counter_effects (mode_of (fs_mode fs)) (asof_of (fs_mode fs)) cfg (dirs_of fs)) as N.
+    destruct (run_ma' _ _ cfg (dirs_of fs)) as [e d']. cbn [fst] in N. rewrite forallb_forall in N.
+    split; intros H; specialize (N _ H); discriminate.
+  - unfold rotate1_step. destruct p; [destruct (beq (mode_of (fs_mode fs)) m_off) eqn:E| |destruct (beq (mode_of (fs_mode fs)) m_off) eqn:E; [|destruct expired]];
+      split; cbn; intros H; repeat (destruct H as [H|H]; try discriminate H); try contradiction;
+      apply beq_neq; exact E.
+  - split; intros [].
 Qed.
 
 End RunFacts.
